@@ -168,7 +168,10 @@ pub open spec fn select_allows(p: il::Program, f: il::Function, l: Loc, s1: Sigm
         StepRes::Fail(e) =>
             (e is ExecutorNoValidLocation && none_taken(f, l, s1))
             || guard_fails(f, l, s1, e)
-            || ((e is Custom || e is ExecutorNoEdgeCondition) && missing_cond(f, l)),
+            // ill-formed block: ANY error (the code reports Error::Custom("Failed to get edge condition") in the
+            // Instruction arm and Error::ExecutorNoEdgeCondition in the EmptyBlock arm; Verus does not model the
+            // `&str -> Error` conversion done by `?`, so the variant is not part of the contract)
+            || missing_cond(f, l),
     }
 }
 
@@ -192,7 +195,9 @@ pub open spec fn extended(p: il::Program, p1: il::Program) -> bool {
 pub open spec fn branch_allows(p: il::Program, a: u64, s1: Sigma, res: StepRes) -> bool {
     match res {
         StepRes::Next(p1, l1, s2) => s2 == s1 && addr_loc(p1, a, l1) && (p1 == p || (program_no_addr(p, a) && extended(p, p1))),
-        StepRes::Fail(e) => program_no_addr(p, a) && (e is ExecutorLiftFail || e is Custom),
+        // lifting failed (Error::ExecutorLiftFail), or the lifted function has no instruction with that address
+        // (Error::Custom; the variant is not part of the contract, see select_allows)
+        StepRes::Fail(e) => program_no_addr(p, a),
     }
 }
 
@@ -218,6 +223,7 @@ pub open spec fn edge_case(p: il::Program, f: il::Function, h: usize, t: usize, 
 }
 
 /// one step of the executor at location `l` of program `p` in state `s`
+#[verifier::opaque]
 pub open spec fn step_allows(p: il::Program, l: il::ProgramLocation, s: Sigma, res: StepRes) -> bool {
     match loc_fn(p, l) {
         None => res matches StepRes::Fail(e) && e is ProgramLocationApplication,
@@ -405,6 +411,104 @@ pub proof fn lemma_prog_ok_extended(p: il::Program, f: il::Function, p1: il::Pro
             assert(p1.functions@[j] == p.functions@[j]);
             assert(fn_ok(*p.functions@[j]));
         }
+    }
+}
+
+// ---- introduction lemmas for the (opaque) step relation: one per way a step can end ---------------------------
+
+/// the driver's location does not apply to the program
+pub proof fn lemma_allows_bad_location(p: il::Program, l: il::ProgramLocation, s: Sigma)
+    ensures
+        forall|e: Error| (loc_fn(p, l) is None && e is ProgramLocationApplication) ==> #[trigger] step_allows(p, l, s, StepRes::Fail(e)),
+        forall|e: Error| (loc_fn(p, l) is Some && !fl_applies(loc_fn(p, l)->Some_0, l.function_location) && e is FunctionLocationApplication)
+            ==> #[trigger] step_allows(p, l, s, StepRes::Fail(e)),
+{
+    reveal(step_allows);
+}
+
+/// `l` is the instruction `Instruction(b, i)` of `f` and carries `op`
+pub open spec fn at_instr(p: il::Program, l: il::ProgramLocation, f: il::Function, b: usize, i: usize, op: Operation) -> bool {
+    loc_fn(p, l) == Some(f) && fl_applies(f, l.function_location) && l.function_location == il::FunctionLocation::Instruction(b, i) && op_at(f, b, i, op)
+}
+
+/// the operation faults (or is ill-sorted / ill-typed and reports some error)
+pub proof fn lemma_allows_op_fail(p: il::Program, l: il::ProgramLocation, s: Sigma, f: il::Function, b: usize, i: usize, op: Operation)
+    requires at_instr(p, l, f, b, i, op),
+    ensures
+        forall|e: Error| (!(op_wf(op) && op_atyped(s.scalars, op)) || (op_spec(op, s) matches OpResult::Fault(k) && err_is(e, k)))
+            ==> #[trigger] step_allows(p, l, s, StepRes::Fail(e)),
+{
+    reveal(step_allows);
+}
+
+/// where successor selection happens: after an operation that falls through, or at an empty block
+pub open spec fn sel_ctx(p: il::Program, l: il::ProgramLocation, s: Sigma, f: il::Function, lc: Loc, s1: Sigma) -> bool {
+    loc_fn(p, l) == Some(f) && fl_applies(f, l.function_location) && l.function_location == loc_fl(lc) && match lc {
+        Loc::Instruction(b, i) => sel_ctx_instr(f, b, i, s, s1),
+        Loc::Edge(h, t) => false,
+        Loc::EmptyBlock(b) => s1 == s,
+    }
+}
+
+pub open spec fn sel_ctx_instr(f: il::Function, b: usize, i: usize, s: Sigma, s1: Sigma) -> bool {
+    exists|op: Operation| #[trigger] op_at(f, b, i, op) && op_spec(op, s) == OpResult::Next(s1, Flow::FallThrough)
+}
+
+pub proof fn lemma_allows_select(p: il::Program, l: il::ProgramLocation, s: Sigma, f: il::Function, lc: Loc, s1: Sigma)
+    requires sel_ctx(p, l, s, f, lc, s1),
+    ensures
+        forall|l2: Loc| #[trigger] takes(f, lc, s1, l2) ==> step_allows(p, l, s, StepRes::Next(p, ploc(f, l2), s1)),
+        forall|e: Error| ((e is ExecutorNoValidLocation && none_taken(f, lc, s1)) || guard_fails(f, lc, s1, e) || missing_cond(f, lc))
+            ==> #[trigger] step_allows(p, l, s, StepRes::Fail(e)),
+{
+    reveal(step_allows);
+    assert forall|res: StepRes| select_allows(p, f, lc, s1, res) implies #[trigger] step_allows(p, l, s, res) by {
+        match lc {
+            Loc::Instruction(b, i) => {
+                let op = choose|op: Operation| #[trigger] op_at(f, b, i, op) && op_spec(op, s) == OpResult::Next(s1, Flow::FallThrough);
+                assert(instr_allows(p, f, lc, op, s, res));
+            }
+            _ => {}
+        }
+    }
+    assert forall|l2: Loc| #[trigger] takes(f, lc, s1, l2) implies step_allows(p, l, s, StepRes::Next(p, ploc(f, l2), s1)) by {
+        assert(select_allows(p, f, lc, s1, StepRes::Next(p, ploc(f, l2), s1)));
+    }
+    assert forall|e: Error| ((e is ExecutorNoValidLocation && none_taken(f, lc, s1)) || guard_fails(f, lc, s1, e) || missing_cond(f, lc))
+        implies #[trigger] step_allows(p, l, s, StepRes::Fail(e)) by {
+        assert(select_allows(p, f, lc, s1, StepRes::Fail(e)));
+    }
+}
+
+/// the operation is an indirect branch to `a`
+pub proof fn lemma_allows_branch(p: il::Program, l: il::ProgramLocation, s: Sigma, f: il::Function, b: usize, i: usize, op: Operation, s1: Sigma, a: u64)
+    requires at_instr(p, l, f, b, i, op), op_spec(op, s) == OpResult::Next(s1, Flow::Branch(a)),
+    ensures
+        forall|p1: il::Program, l1: il::ProgramLocation| (addr_loc(p1, a, l1) && (p1 == p || (program_no_addr(p, a) && extended(p, p1))))
+            ==> #[trigger] step_allows(p, l, s, StepRes::Next(p1, l1, s1)),
+        forall|e: Error| program_no_addr(p, a) ==> #[trigger] step_allows(p, l, s, StepRes::Fail(e)),
+{
+    reveal(step_allows);
+    assert forall|res: StepRes| branch_allows(p, a, s1, res) implies #[trigger] step_allows(p, l, s, res) by {
+        assert(instr_allows(p, f, Loc::Instruction(b, i), op, s, res));
+    }
+    assert forall|p1: il::Program, l1: il::ProgramLocation| (addr_loc(p1, a, l1) && (p1 == p || (program_no_addr(p, a) && extended(p, p1))))
+        implies #[trigger] step_allows(p, l, s, StepRes::Next(p1, l1, s1)) by {
+        assert(branch_allows(p, a, s1, StepRes::Next(p1, l1, s1)));
+    }
+    assert forall|e: Error| program_no_addr(p, a) implies #[trigger] step_allows(p, l, s, StepRes::Fail(e)) by {
+        assert(branch_allows(p, a, s1, StepRes::Fail(e)));
+    }
+}
+
+/// the driver sits on an edge
+pub proof fn lemma_allows_edge(p: il::Program, l: il::ProgramLocation, s: Sigma, f: il::Function, h: usize, t: usize)
+    requires loc_fn(p, l) == Some(f), fl_applies(f, l.function_location), l.function_location == il::FunctionLocation::Edge(h, t),
+    ensures forall|l2: Loc| #[trigger] succ(f, Loc::Edge(h, t), l2) ==> step_allows(p, l, s, StepRes::Next(p, ploc(f, l2), s)),
+{
+    reveal(step_allows);
+    assert forall|l2: Loc| #[trigger] succ(f, Loc::Edge(h, t), l2) implies step_allows(p, l, s, StepRes::Next(p, ploc(f, l2), s)) by {
+        assert(edge_case(p, f, h, t, s, StepRes::Next(p, ploc(f, l2), s)));
     }
 }
 
